@@ -105,8 +105,9 @@ def merge_params(other_params, target_params):
     """
     for name in other_params.keys() & target_params.keys():
         merge_present_params(other_params[name], target_params[name])
-    for name in other_params.keys() - target_params.keys():
-        target_params[name] = other_params[name]
+    for name in tuple(other_params.keys()):
+        if name not in target_params:
+            target_params[name] = other_params[name]
     return target_params
 
 
